@@ -130,6 +130,33 @@ def check_src_parser(rep, prog):
     ok = len(cs) == 1 and tuple(cs[0].data[1]) == (Sym("word6"), Sym("word7"), Sym("word8"))
     rep.check(ok, rule, "SRC details: signature = hex words 6, 7, 8 in that order", q, "parser.get_signature(word6, word7, word8)",
               "the SRC parser builds the signature from %s" % ([repr(a) for a in cs[0].data[1]] if cs else "nothing"))
+    # the attention kind: 'system checkstop' iff the last two characters of the reference code are '10' - for EVERY reference
+    # code (hex digits A-F included); the result document is evaluated for sample codes
+    r = I.call(q, args) if False else None
+    I2 = Interpreter(prog, hooks={"opaque": {PD + ".get_signature", PD + ".__init__"}})
+    res = I2.call(q, args)
+    doc = res.args[0] if isinstance(res, Op) and res.op == "json.dumps" else None
+    bad = None
+    if doc is None:
+        bad = "the SRC parser does not return json.dumps(<document>)"
+    else:
+        sig = Op("call:" + PD + ".get_signature", *cs[0].data[1]) if cs else None
+        for code in ("BD50E510", "BD50E511", "BD50E51A", "BD50E5FF", "BD50E500", "BD50E5A0", "bd50e510", "BD50E501"):
+            env = pelx.with_heap(I2, {args[0]: code})
+            if sig is not None:
+                env[sig] = "SIG"
+            try:
+                d = evaluate(doc, env)
+                got = d.get("Primary Attention") if isinstance(d, dict) else None
+            except CannotEval as e:
+                raise AnalysisError("SRC parser document not evaluable: %s" % e)
+            except Exception as e:
+                got = "<raises %s>" % type(e).__name__
+            want = "system checkstop" if code[6:8] == "10" else "secondary analysis"
+            if got != want and bad is None:
+                bad = "reference code %s: Primary Attention is %r, documented %r" % (code, got, want)
+    rep.check(bad is None, rule, "Primary Attention = 'system checkstop' iff the reference code ends in '10', 'secondary analysis' otherwise "
+              "(evaluated for codes with hex letters too)", q, "if '10' == refcode[6:8]", bad)
 
 
 def check_sig_list(rep, prog):
